@@ -214,6 +214,10 @@ impl Sess {
         match e {
             ExprRef::Pool(i) => pools::VALID_EXPRS[i % pools::VALID_EXPRS.len()].to_string(),
             ExprRef::Bad(i) => pools::INVALID_EXPRS[i % pools::INVALID_EXPRS.len()].to_string(),
+            ExprRef::Corpus(i) => {
+                let c = pools::corpus();
+                c[i % c.len()].to_string()
+            }
             ExprRef::Feedback => self.cur_mathml.clone().unwrap_or_else(|| "<math><mi>x</mi></math>".to_string()),
             ExprRef::Lit(s) => s.clone(),
         }
